@@ -99,6 +99,10 @@ pub fn enter_execution() {
     });
 }
 
+pub fn note_timed_wait() {
+    with(|w| w.hist.timed_wait_used = true);
+}
+
 pub fn note_spawn() {
     with(|w| w.hist.tasks += 1);
 }
@@ -224,6 +228,31 @@ fn real_entropy(buf: *mut u8, len: usize) -> c_int {
 /// unmodified `hdwallet::rand::get_entropy` lands here. Never unwinds.
 #[no_mangle]
 pub unsafe extern "C" fn getentropy(buf: *mut u8, len: usize) -> c_int {
+    entropy_device(buf, len, true)
+}
+
+/// `getrandom(2)` asking for blocking, secure bytes is the same source (glibc's getentropy is
+/// built on it). Requests with GRND_NONBLOCK / GRND_INSECURE are the runtime's own (std's
+/// HashMap keys) and go to the kernel.
+#[no_mangle]
+pub unsafe extern "C" fn getrandom(buf: *mut u8, len: usize, flags: std::os::raw::c_uint) -> isize {
+    let in_task = {
+        let g = WORLD.lock().unwrap_or_else(|e| e.into_inner());
+        g.as_ref().map(|w| w.in_execution).unwrap_or(false)
+    };
+    if !in_task || flags & 5 != 0 {
+        let r = libc::syscall(libc::SYS_getrandom, buf, len, flags);
+        return r as isize;
+    }
+    let n = len.min(256);
+    if entropy_device(buf, n, false) < 0 {
+        -1
+    } else {
+        n as isize
+    }
+}
+
+unsafe fn entropy_device(buf: *mut u8, len: usize, cap256: bool) -> c_int {
     enum Ctx {
         Outside,
         Escaped,
@@ -279,7 +308,7 @@ pub unsafe extern "C" fn getentropy(buf: *mut u8, len: usize) -> c_int {
         let mut r = (0, 0);
         let mut filled = 0usize;
         let mut from_tail = false;
-        if len > 256 {
+        if cap256 && len > 256 {
             r = (-1, libc::EIO);
             ev.src = "toolong".into();
         }
